@@ -81,7 +81,13 @@ func genC03Program(r *R, ex map[string]bool) *Program {
 		KV{"bm", &Val{T: "bmap", M: []KV{{"true", &Val{T: "int", I: 1}}, {"false", &Val{T: "int", I: 0}}}}},
 		KV{"km", &Val{T: "kmap", M: []KV{{"zeta", str("Z")}, {"alpha", str("A")}, {"mid", str("M")}}}},
 	)
-	maps := []string{"m1", "m2", "mi", "p1.Meta", "nm", "nm.b", "si", "mx", "cs", "cs2", "fm", "bm", "km", "gm", "gp.Meta", "em", "nk"}
+	// values that tie under numeric comparison but print differently: whichever of them an extremum, a sort or a
+	// de-duplication lets win must not depend on the order in which the map was walked
+	ctx.M = append(ctx.M,
+		KV{"tie", &Val{T: "map", M: []KV{{"basic", &Val{T: "int", I: 10}}, {"promo", str("10.00")}, {"std", &Val{T: "float", F: 10}}, {"plus", str("+10")}, {"low", str("2")}, {"lowf", &Val{T: "int", I: 2}}, {"lowx", str("2.0")}, {"mid", &Val{T: "float", F: 2.5}}}}},
+		KV{"ties", &Val{T: "smap", M: []KV{{"x", str("7")}, {"y", str("7.0")}, {"z", str("07")}, {"w", str("1e1")}, {"v", str("10")}}}},
+	)
+	maps := []string{"m1", "m2", "mi", "p1.Meta", "nm", "nm.b", "si", "mx", "cs", "cs2", "fm", "bm", "km", "gm", "gp.Meta", "em", "nk", "tie", "ties", "tie", "ties"}
 	hashLit := func() string {
 		n := r.Range(2, 4)
 		keys := []string{"a", "b", "c", "d"}
